@@ -235,11 +235,15 @@ def check_case(ctx, case):
                     p2 = os.path.join(root, "d2.parq")
                     if guarded("to_parquet_dask", lambda: ddf2.to_parquet(p2) or 1) is None:
                         return
-                    arg = [path, p2] if case["multi"] == "list" else os.path.join(root, "d*.parq")
+                    rev = case["multi"] == "list" and case["seed"] % 2 == 0
+                    arg = ([p2, path] if rev else [path, p2]) if case["multi"] == "list" \
+                        else os.path.join(root, "d*.parq")
                     gm = guarded(f"read_parquet_dask-{case['multi']}", lambda: read_parquet_dask(arg).compute())
                     if gm is not None:
                         ctx.count("roundtrips_checked")
-                        compare(ctx, viol, gm, concat_ledgers(led, ledger(ref2)), f"dask-{case['multi']}")
+                        # a list is concatenated in *list* order, whatever the paths sort like
+                        want = concat_ledgers(ledger(ref2), led) if rev else concat_ledgers(led, ledger(ref2))
+                        compare(ctx, viol, gm, want, f"dask-{case['multi']}{'-unsorted' if rev else ''}")
         ctx.case([case["spec"]["cols"], route, case["index_kind"], case["compression"], case["npartitions"],
                   proj, case["forms"], case["multi"]], nontrivial=nontrivial)
         ctx.sig(kind, subtype, route, case["index_kind"], str(case["compression"]),
